@@ -17,6 +17,14 @@ CHECKS = {
    text="TLC exhaustively checks KeyStore.tla (five tables, every API operation as its SQL statement/commit sequence, crash between any two statements, reopen) for all histories of up to 3 (thorough 4) operations over 2 keys x 2 values against Durable, AllOrNothing and SentMonotone; the as-read statement order is kept as a switch and must violate AllOrNothing (self-test). Every transition of the graph is replayed on the real LiteAxolotlStore over a file, and at EVERY statement and commit boundary of every operation the database and its journal are copied, reopened by a fresh store and compared with the specification's committed state.",
    note="Trusts TLC, the sqlite3 proxy (statement numbering) and file-copy crash model (process death, not power loss); python-axolotl record classes are used to build distinguishable values.",
    technique="TLA+ spec + TLC exhaustive model checking; behaviour replay with crash injection at every statement boundary (copy db+journal, reopen)"),
+ "C15": dict(level="model_checking", design="4/C15",
+   text="TLC evaluates MediaCipher.tla on a small-block model (block size 4, all plaintexts up to 9 bytes over a 3-symbol alphabet incl. padding look-alikes, 2 keys, 4 kinds, every single-position modification, every truncation, wrong key, wrong kind) and establishes round trip, length formula and tamper rejection for the always-pad/verify-first design (the as-read conditional padding must fail: self-test); it prints the ciphertext layout as a term. The harness evaluates that term with cryptography's HKDF/AES-CBC and hmac and requires the real MediaCipher to produce byte-identical ciphertexts, to decrypt reference ciphertexts, and to reject every tampered variant, for all lengths 0..64, random larger ones, all kinds and wrappers.",
+   note="The model's primitives are ideal (symbolic); the real ones are exercised only on the enumerated inputs. The WhatsApp layout is the one written in the specification; no server is available offline.",
+   technique="TLA+ transcription evaluated by TLC as reference (term interpretation) + exhaustive small-length enumeration against the real cipher"),
+ "C20": dict(level="model_checking", design="4/C20",
+   text="TLC evaluates RegRequest.tla: percent-encoding round trip for all 1- and 2-byte strings (65,792 obligations) and boundary code points, safe-character set, and it computes the expected encoding of every harness-generated parameter list (str/bytes/int values, 0-6 parameters), the token and blob terms; the harness compares WARequest.urlencode/urlencodeParams byte for byte, decrypts every encryptParams blob with the recipient's private key (cryptography X25519 + AES-GCM) and compares with TLC's string, evaluates the token term with hashlib/hmac against getToken for generated phone numbers (repeated calls on one environment), and has TLC validate recorded ephemeral-key histories against the Fresh invariant.",
+   note="Token constants are frozen copies in the specification; WhatsApp's servers are not available, so 'WhatsApp's construction' means the construction written in the specification.",
+   technique="TLA+ transcription evaluated by TLC as reference implementation + TLC trace validation of ephemeral-key freshness"),
 }
 NA_REASON = "check not built yet in this session (planned: see DESIGN.md section 4)"
 
